@@ -45,23 +45,30 @@ def _cvc5_check(text, timeout_ms):
     exe = "/usr/bin/cvc5"
     if not os.path.exists(exe):
         return "unknown"
+    import re
     body = text.replace("(set-info :status unknown)", "")
+    body = re.sub(r"\(_ ([A-Za-z_][A-Za-z_0-9]*) 0\)", r"\1", body)     # z3's spelling of recursive-function applications
     uses_str = "String" in body or "str." in body
     hdr = "(set-logic ALL)\n"
     fd, path = tempfile.mkstemp(suffix=".smt2", prefix="pyvc_")
     try:
         with os.fdopen(fd, "w") as f:
             f.write(hdr + body)
-        args = [exe, "--lang=smt2", "--tlimit=%d" % int(timeout_ms)]
-        if uses_str:
-            args.append("--strings-exp")
-        try:
-            p = subprocess.run(args + [path], capture_output=True, text=True, timeout=timeout_ms / 1000.0 + 5)
-        except subprocess.TimeoutExpired:
-            return "unknown"
-        out = (p.stdout or "").strip().splitlines()
-        if out and out[0] in ("unsat", "sat"):
-            return out[0]
+        # two strategies: default instantiation, then enumerative instantiation (decides the
+        # forall-exists invariants over arrays that e-matching leaves open); `unsat` from either counts
+        for extra, share in (([], 0.4), (["--enum-inst"], 0.6)):
+            args = [exe, "--lang=smt2", "--tlimit=%d" % int(timeout_ms * share)] + extra
+            if uses_str:
+                args.append("--strings-exp")
+            try:
+                p = subprocess.run(args + [path], capture_output=True, text=True, timeout=timeout_ms * share / 1000.0 + 5)
+            except subprocess.TimeoutExpired:
+                continue
+            out = (p.stdout or "").strip().splitlines()
+            if out and out[0] == "unsat":
+                return "unsat"
+            if out and out[0] == "sat" and not extra:
+                return "sat"
         return "unknown"
     finally:
         try:
